@@ -33,7 +33,7 @@ C_FUNCS = [
     ("tables.c", "tsk_node_table_truncate"), ("tables.c", "tsk_node_table_clear"),
     ("tables.c", "tsk_node_table_get_row_unsafe"), ("tables.c", "tsk_node_table_get_row"),
     ("tables.c", "count_true"), ("tables.c", "keep_mask_to_id_map"),
-    ("tables.c", "subset_id_column"), ("tables.c", "subset_flags_column"), ("tables.c", "subset_double_column"),
+    ("tables.c", "subset_id_column"), ("tables.c", "subset_remap_id_column"), ("tables.c", "subset_flags_column"), ("tables.c", "subset_double_column"),
     ("tables.c", "subset_ragged_char_column"),
     ("tables.c", "check_offsets"),
     ("tables.c", "tsk_edge_table_has_metadata"),
